@@ -29,7 +29,7 @@ const mod = sym.HeliosModule
 // proxyStubs redirects the reverse proxy to the harness model of it.
 var proxyStubs = map[string]string{
 	"(*net/http/httputil.ReverseProxy).ServeHTTP": mod + "/internal/loadbalancer.verifStubProxy",
-	"(*" + mod + "/internal/loadbalancer.LoadBalancer).performHealthCheck": mod + "/internal/loadbalancer.verifStubProbe",
+	"(*net/http.Client).Do": mod + "/internal/loadbalancer.verifClientDo",
 }
 
 func job(id, pkg, fn string, args ...int64) *sym.Job {
@@ -218,12 +218,21 @@ func propC02() *Prop {
 			for _, s := range []int64{0, 1, 2} {
 				js = append(js, lbJob(fmt.Sprintf("C02/dispatch-after-history[%s,N=2,k=%d]", strategyNames[s], tierPick(tier, 4, 5)), "VerifC02History", s, tierPick(tier, 4, 5)))
 			}
+			for s := int64(0); s < 5; s++ {
+				for n := int64(1); n <= tierPick(tier, 2, 3); n++ {
+					j := lbJob(fmt.Sprintf("C02/request-after-request[%s,N=%d,2 requests, any time and fresh ejections between]", strategyNames[s], n), "VerifC02Sequence", s, n, 2)
+					if s == 0 {
+						rrJob(j)
+					}
+					js = append(js, j)
+				}
+			}
 			return js
 		},
 		Assumptions: append([]string{"pool state is arbitrary: per backend any health flag, window end zero or any instant within 2^40 ns of now, any gauge 0..2^30, any weight 1..1024, any smooth-WRR running weight within +-2^20, any rotation counter < 2^63 (over-approximates every history of ejections, expiries, adds and removes)"}, commonAssumptions...),
 		Bounds: map[string]string{
-			"quick":    "pools of 1..4 backends, all five strategies, one dispatch decision from an arbitrary state; ip_hash with every 3-byte client string for N<=3; ip_hash_consistent with one concrete client",
-			"thorough": "pools of 1..6 backends (ip_hash symbolic client N<=4)",
+			"quick":    "pools of 1..4 backends, all five strategies, one dispatch decision from an arbitrary state; two decisions in a row (any time and fresh ejections between) for N<=2; ip_hash with every 3-byte client string for N<=3; ip_hash_consistent with one concrete client",
+			"thorough": "pools of 1..6 backends (ip_hash symbolic client N<=4); two decisions in a row for N<=3",
 		},
 		Outside: []string{"pools larger than 6", "client strings other than 3 bytes in this property (see C06)"},
 	}
@@ -246,6 +255,13 @@ func propC05() *Prop {
 			}
 			for n := int64(1); n <= tierPick(tier, 4, 6); n++ {
 				js = append(js, job(fmt.Sprintf("C05d/least_connections[N=%d]", n), "loadbalancer", "VerifC05LeastConn", n))
+			}
+			for n := int64(1); n <= tierPick(tier, 4, 5); n++ {
+				js = append(js, rrJob(job(fmt.Sprintf("C05a/round_robin-with-ejected-members[N=%d,every subset]", n), "loadbalancer", "VerifC05RoundRobinEjected", n)))
+			}
+			js = append(js, threadJob(rrJob(lbJob("C05a/round_robin-concurrent-pickers-one-ejected[N=3,2 threads x 1]", "VerifC05RRConcurrentEjected", 3, 2, 1)), int(tierPick(tier, 2, 3))))
+			if tier == "thorough" {
+				js = append(js, threadJob(rrJob(lbJob("C05a/round_robin-concurrent-pickers-one-ejected[N=3,2 threads x 2]", "VerifC05RRConcurrentEjected", 3, 2, 2)), 2))
 			}
 			js = append(js, job("C05b/wrr-cycle[N=1,w<=6]", "loadbalancer", "VerifC05WRRCycle", 1, 6))
 			js = append(js, job("C05b/wrr-cycle[N=2,w<=6]", "loadbalancer", "VerifC05WRRCycle", 2, 6))
@@ -697,6 +713,9 @@ var pairNames = []string{
 	"ListBackends || MarkBackendUnhealthy (after an expired window)", "Execute || Execute inside a half-open episode (max_requests 3)",
 }
 
+var metricsOps = []string{"GetMetrics", "RecordRequest", "RecordResponse", "RecordBackendRequest", "UpdateBackendHealth", "UpdateBackendConnections", "SyncBackendConnections", "RecordRateLimitedRequest", "UpdateCircuitBreakerState"}
+var breakerOps = []string{"Execute(ok)", "Execute(fail)", "State", "Counts", "GetMetrics"}
+
 func propC12() *Prop {
 	return &Prop{
 		ID: "C12", Title: "Concurrency safety: no data races, panics or deadlocks - pairwise, at lock/atomic granularity",
@@ -707,6 +726,20 @@ func propC12() *Prop {
 			}
 			for i, n := range []string{"pool cleanup || Put", "pool Get || Get", "pool Put || Shutdown"} {
 				js = append(js, threadJob(lbJob("C12/pair["+n+" (real constructor)]", "VerifC20Concurrent", int64(i)), int(tierPick(tier, 2, 3))))
+			}
+			for i, a := range metricsOps {
+				for jx := i; jx < len(metricsOps); jx++ {
+					for warm := int64(0); warm < 2; warm++ {
+						js = append(js, threadJob(lbJob(fmt.Sprintf("C12/metrics[%s || %s,%s]", a, metricsOps[jx], []string{"first sight of backend and breaker", "known backend and breaker"}[warm]), "VerifC12Metrics", int64(i), int64(jx), warm), int(tierPick(tier, 2, 3))))
+					}
+				}
+			}
+			for i, a := range breakerOps {
+				for jx := i; jx < len(breakerOps); jx++ {
+					for pre := int64(0); pre < 3; pre++ {
+						js = append(js, threadJob(lbJob(fmt.Sprintf("C12/breaker[%s || %s,from %s]", a, breakerOps[jx], []string{"closed one failure short of tripping", "open with the timeout elapsed", "half-open with budget left"}[pre]), "VerifC12Breaker", int64(i), int64(jx), pre), 2))
+					}
+				}
 			}
 			js = append(js, threadJob(lbJob("C12/pair[health-check tick || Stop]", "VerifC19Stop", 0, 1, 1), int(tierPick(tier, 2, 3))))
 			js = append(js, threadJob(lbJob("C12/pair[Stop || Stop]", "VerifC19Stop", 1, 1, 0), int(tierPick(tier, 2, 3))))
@@ -736,11 +769,17 @@ func propC19() *Prop {
 					js = append(js, threadJob(lbJob(fmt.Sprintf("C19/health-check-goroutine-racing-Stop[N=%d,ticks<=%d]", n, ticks), "VerifC19Stop", 0, n, ticks), int(tierPick(tier, 2, 3))))
 				}
 			}
+			js = append(js, threadJob(lbJob("C19/Stop-with-probe-in-flight-to-a-hung-backend[N=1]", "VerifC19Stop", 3, 1, 0), int(tierPick(tier, 2, 3))))
+			js = append(js, threadJob(lbJob("C19/Stop-with-probe-in-flight-to-a-healthy-backend[N=1]", "VerifC19Stop", 4, 1, 0), int(tierPick(tier, 2, 3))))
+			if tier == "thorough" {
+				js = append(js, threadJob(lbJob("C19/Stop-with-probe-in-flight-to-a-hung-backend[N=2]", "VerifC19Stop", 3, 2, 0), 2))
+				js = append(js, threadJob(lbJob("C19/Stop-with-probe-in-flight-to-a-hung-backend[N=1,1 tick]", "VerifC19Stop", 3, 1, 1), 2))
+			}
 			js = append(js, threadJob(lbJob("C19/Stop-racing-Stop", "VerifC19Stop", 1, 1, 0), int(tierPick(tier, 2, 3))))
 			js = append(js, threadJob(lbJob("C19/Stop-then-late-tick-then-Stop[N=2]", "VerifC19Stop", 2, 2, 0), 1))
 			return js
 		},
-		Assumptions: append([]string{"claimed for the balancer side only: LoadBalancer.Stop, the real health-check goroutine (startHealthChecks -> startActiveHealthChecks: initial round, ticker loop, probe goroutines; the ticker fires at most `ticks` times, at any point of the schedule, and a select with several ready cases picks any of them), and the WebSocket pool's Shutdown; http.Server.Shutdown, request draining, signals and the shutdown-timeout bound are net/http / OS and not encodable", "performHealthCheck is replaced by a stub that counts the probe, yields and fails like a refused connection (natively the real probe dials 127.0.0.1:1); the balancer context is a cancellable-context model"}, commonAssumptions...),
+		Assumptions: append([]string{"claimed for the balancer side only: LoadBalancer.Stop, the real health-check goroutine (startHealthChecks -> startActiveHealthChecks: initial round, ticker loop, probe goroutines; the ticker fires at most `ticks` times, at any point of the schedule, and a select with several ready cases picks any of them), and the WebSocket pool's Shutdown; http.Server.Shutdown, request draining, signals and the shutdown-timeout bound are net/http / OS and not encodable", "the real performHealthCheck runs; (*http.Client).Do is replaced by a backend model that counts the probe, yields and then refuses the connection, answers 200, or never answers (holds the probe until the request's context is done or the client's timeout fires); natively the real client dials a local test server that behaves the same way", "contexts are models: cancellation propagates to derived contexts; a deadline expires when virtual time reaches it, and virtual time passes only when every thread is blocked (it jumps to the earliest pending deadline); shutdown timeout 1..2 s, probe timeout 1 ms..3 s (ranges kept small so that a counterexample replays natively in real time)"}, commonAssumptions...),
 		Bounds:  map[string]string{"quick": "1-2 backends, 2 idle pooled connections, 2 top-level threads + probe goroutines, <= 2 pre-emptions", "thorough": "<= 3 pre-emptions"},
 		Outside: []string{"http.Server.Shutdown / in-flight client requests / SIGTERM handling", "more than 1 (quick) / 2 (thorough) ticker firings during shutdown"},
 	}
